@@ -53,6 +53,7 @@ def run(ctx):
     proved = ctx.prove()
     with V.Lock("build"):
         model = V.driver("lex")
+        V.driver("lexparse")
     implrun = os.path.join(V.BUILD, "implrun")
     ctx.trusted += [
         "Coq 8.16.1 kernel (coqc; vm_compute for the table obligation and the Examples; no native_compute)",
@@ -128,6 +129,11 @@ def run_inputs(ctx, proved, model, implrun, inputs, g, replaying=False):
     m_lex = V.run_batch([model], ["lex " + h for h in hexes], hang_s=60, mem_kb=big)
     m_pump = V.run_batch([model], ["pump " + h for h in hexes], hang_s=60, mem_kb=big)
     i_parse = {m: V.run_batch([implrun, "parse"], [m + " " + h for h in hexes], hang_s=2, max_failures=3) for m in MODES}
+    # the composed model bytes -> lexer -> pump -> parser model (Model/LexParse.v); strconv.ParseFloat verdicts from Go
+    i_floats = V.run_batch([implrun, "floats"], hexes, hang_s=4, max_failures=3)
+    m_parse = V.run_batch([os.path.join(V.BUILD, "modelrun_lexparse")],
+                          [((f if f and not first_fail(f) else "-") + " " + h) for f, h in zip(i_floats, hexes)],
+                          hang_s=120, mem_kb=big)
 
     def replay(lab, d, **kw):
         r = {"label": lab, "source_hex": d.hex(), "source": d[:300].decode("utf-8", "replace")}
@@ -135,6 +141,7 @@ def run_inputs(ctx, proved, model, implrun, inputs, g, replaying=False):
         return r
 
     agree_lex = agree_pump = 0
+    agree_parse = {}
     tok_types = {}
     n_tokens = 0
     outcomes = {m: {} for m in MODES}
@@ -177,9 +184,21 @@ def run_inputs(ctx, proved, model, implrun, inputs, g, replaying=False):
         else:
             agree_pump += 1
         # ---- parser entry points: watchdog + located errors
-        for m in MODES:
+        mpr = (m_parse[k] or "none").split(" | ")
+        for mi, m in enumerate(MODES):
             r = i_parse[m][k]
             c = cls(r)
+            # ---- composed model vs the real parser: outcome class and located error token
+            if not first_fail(r):
+                want = "ok" if c == "ok" else "plain" if c == "plain" else "perr " + r.split(" ", 2)[2] if c == "perr" else r
+                got = mpr[mi] if len(mpr) == 3 else (m_parse[k] or "none")
+                if got != want:
+                    what = "parse outcome (%s) differs between the real parser and the composed model Lex+Pump+Parse (%s)" % (m, lab)
+                    if got in ("crash", "fuel", "outoffuel", "hang") or got.startswith(("died", "badreq")):
+                        what = "composed model Lex+Pump+Parse returns %s (%s, %s)" % (got[:60], m, lab)
+                    ctx.violation(what, replay(lab, d, mode=m, impl=r, model=got))
+                else:
+                    agree_parse[m] = agree_parse.get(m, 0) + 1
             outcomes[m][c] = outcomes[m].get(c, 0) + 1
             if first_fail(r):
                 if c != "skipped":
@@ -214,10 +233,10 @@ def run_inputs(ctx, proved, model, implrun, inputs, g, replaying=False):
     ctx.samples = [{"label": inputs[i][0], "source": inputs[i][1][:160].decode("utf-8", "replace"),
                     "tokens": (i_lex[i] or "")[:300]} for i in pick]
     ctx.coverage.update({
-        "evaluations": len(inputs) * 5,
+        "evaluations": len(inputs) * 8,
         "distinct_nontrivial": len(distinct),
         "inputs": len(inputs), "input_distribution": dict(sorted(dist.items(), key=lambda kv: -kv[1])),
-        "lex_agree": agree_lex, "pump_agree": agree_pump, "tokens_checked_by_oracle": n_tokens,
+        "lex_agree": agree_lex, "pump_agree": agree_pump, "parse_agree": agree_parse, "tokens_checked_by_oracle": n_tokens,
         "token_types_seen": dict(sorted(tok_types.items(), key=lambda kv: -kv[1])),
         "parse_outcomes": outcomes, "parse_error_token_types": dict(sorted(err_types.items(), key=lambda kv: -kv[1])),
         "keywords_checked": kw_ok, "bytes_total": sum(len(d) for _, d in inputs),
